@@ -15,7 +15,8 @@ META = {
                    'push/trypass; (4) base roll-back on every non-taking path of take/wsapi_take/wsapi_peek and none on '
                    'the taking path; (5) owner-side operations are applied only to the executing worker\'s own queue; '
                    '(6) a popped/stolen thread reaches a switch target, a queue insertion or the return value on every '
-                   'path; (7) re-centring applies one offset to memmove destination, top and base.',
+                   'path; (7) re-centring applies one offset to memmove destination, top and base.'
+                   ' myth_queue_init writes every field that push/pop/take/put/trypass/peek read (C02.9).',
     'not_decided': 'linearizability of the mixed owner/thief history under all interleavings, the exact fast-path '
                    'threshold, capacity arithmetic, termination of programs',
     'assumptions': ['x86-TSO: only store->load reordering is possible; xchg with memory / lock-prefixed RMW / mfence are '
